@@ -1,5 +1,5 @@
 PROPS["C14"] = {
-    "bounds": "accepted-parameters-then-first-use: aggregation interval/wait over all 16-bit values with and without regex, and over all 64-bit values (seconds that wrap around in time.Duration); destination flush/reconnect/spool-sync periods over all 16-bit signed millisecond values, connbuf/iobuf/spoolbuf/maxBytesPerFile/syncEvery over 16-bit signed values (sizes capped at 16 to bound allocations), one free option at a time, spool and pickle on/off, then two lines through a connected destination; consistent-hashing route with 1..2 destinations emptied, then Dispatch; grafanaNet route through the real constructor with concurrency / bufSize / flushMaxNum over all 16-bit signed values (one free at a time, sizes capped at 3 workers / 8 slots), then two metrics and Shutdown; table with bad-metrics max age 0; pickle frames (1..2 frames, second possibly larger/malformed, one arbitrary cut) and plain-text streams of <= 4 arbitrary bytes through the real input handlers (harnesses shared with C13/C12); admin commands: `view` (Table.Print) on the empty table and on tables with one entry of every kind (option texts empty / 1 byte / wider than every column, 0..2 destinations, one optionally deleted, three route kinds); the rewriter constructor on free `old` / `not` of 0..2 bytes, 6 commands over a family of 17 corner words through the real lexer, and the command parser over token sequences of 1..4 tokens (first token any of 10 command tokens resp. the 3 back-end route commands; every further token a free keyword / option / separator / function token, a number of 1..2 free digits, one of 12 words, or a quoted string; sequences of 5 tokens did not finish within 1200 s and are not claimed); every other harness of every property also reports any reachable panic / exit as a violation (arbitrary lines through Table.Dispatch: C02; pickle item shapes: C13)",
+    "bounds": "accepted-parameters-then-first-use: aggregation interval/wait over all 16-bit values with and without regex, and over all 64-bit values (seconds that wrap around in time.Duration); destination flush/reconnect/spool-sync periods over all 16-bit signed millisecond values, connbuf/iobuf/spoolbuf/maxBytesPerFile/syncEvery over 16-bit signed values (sizes capped at 16 to bound allocations), one free option at a time, spool and pickle on/off, then two lines through a connected destination; consistent-hashing route with 1..2 destinations emptied, then Dispatch; grafanaNet route through the real constructor with concurrency / bufSize / flushMaxNum over all 16-bit signed values (one free at a time, sizes capped at 3 workers / 8 slots), then two metrics and Shutdown; table with bad-metrics max age 0; pickle frames (1..2 frames, second possibly larger/malformed, one arbitrary cut) and plain-text streams of <= 4 arbitrary bytes through the real input handlers (harnesses shared with C13/C12); admin port: the connection handler (telnet.handleApiRequest) on one read of 0..3 arbitrary ASCII bytes or a read filling the whole 1024-byte buffer, optionally a second command, end of stream; admin commands: `view` (Table.Print) on the empty table and on tables with one entry of every kind (option texts empty / 1 byte / wider than every column, 0..2 destinations, one optionally deleted, three route kinds); the rewriter constructor on free `old` / `not` of 0..2 bytes, 6 commands over a family of 17 corner words through the real lexer, and the command parser over token sequences of 1..4 tokens (first token any of 10 command tokens resp. the 3 back-end route commands; every further token a free keyword / option / separator / function token, a number of 1..2 free digits, one of 12 words, or a quoted string; sequences of 5 tokens did not finish within 1200 s and are not claimed); every other harness of every property also reports any reachable panic / exit as a violation (arbitrary lines through Table.Dispatch: C02; pickle item shapes: C13)",
     "outside_note": "the token-level model replaces toki's Next/Peek; the harness's native twin renders the tokens as text for the real lexer (word values are chosen so that the lexer yields exactly these tokens)",
     "outside": "lexing of free command text by toki (the parser is explored over token sequences and over a family of concrete words through the real lexer) and TOML decoding by BurntSushi: parameters enter at the constructors that both syntaxes call; the web UI; kafka/pubsub/cloudwatch back ends; out-of-memory and goroutine leaks",
     "assumptions": ["a parameter that cannot work must be refused with an error by the constructor (aggregator.New, destination.New, table.NewTableConfig) or be harmless at first use"],
@@ -21,6 +21,7 @@ PROPS["C14"] = {
         {"pkg": "imperatives", "hdir": "imperatives", "overlays": {"destination": "destination/c20.go", "route": "route/c20.go", "pkg/mt-conf": "mtconf/c20.go"}, "specs": [
             spec("C14/admin-tokens/backends/tokens<=4", "VerifC14AdminTokens", {"maxtokens": "4", "cmds": "backends"}, allow_no_ok=True)]},
         {"pkg": "table", "hdir": "table", "specs": [spec("C14/admin/view", "VerifC14View")]},
+        {"pkg": "telnet", "hdir": "telnet", "specs": [spec("C14/admin/connection-handler", "VerifC14AdminConn")]},
         {"pkg": "rewriter", "hdir": "rewriter", "specs": [spec("C14/params/rewriter", "VerifC14RewriterNew", allow_no_assert=True)]},
         {"pkg": "route", "hdir": "route", "specs": [spec("C14/params/hashring-emptied", "VerifC14HashRingEmptied", allow_no_assert=True),
                                                      spec("C14/params/grafananet", "VerifC14GrafanaNetParams", allow_no_assert=True)]},
